@@ -39,13 +39,13 @@ def transform(kind, arr, S, S1=None):
     raise ValueError(kind)
 
 
-def check_diagonalizer(X, S, tol=1e-9):
-    """Is S a real orthogonal matrix with S^T X S diagonal, ascending?  Returns list of defects."""
+def check_diagonalizer(X, S, tol=1e-9, allow_complex=False):
+    """Is S a unitary matrix (real for real X) with S^-1 X S diagonal, ascending?  Returns list of defects."""
     bad = []
     S = numpy.asarray(S)
     n = S.shape[0]
-    if numpy.max(numpy.abs(numpy.imag(S))) > tol:
-        bad.append("complex")
+    if numpy.max(numpy.abs(numpy.imag(S))) > tol and not allow_complex:
+        bad.append("complex")    # worlds in which everything is real: a real eigenbasis exists
     if numpy.max(numpy.abs(S.conj().T @ S - numpy.eye(n))) > tol:
         bad.append("not-unitary")
     D = numpy.linalg.inv(S) @ X @ S
